@@ -377,7 +377,7 @@ pub fn tcase() -> BoxedStrategy<TCase> {
     let op = prop_oneof![
         6 => (who(), cand.clone(), coin_denom(), amount(), amount()).prop_map(|(who, cand, coin_denom, amount, limit)| TOp::SwapIn { who, cand, coin_denom, amount, limit }),
         6 => (who(), cand, coin_denom(), amount(), amount()).prop_map(|(who, cand, coin_denom, amount, limit)| TOp::SwapOut { who, cand, coin_denom, amount, limit }),
-        4 => (who(), 0u8..5, amount(), 0u8..8, proptest::option::of(0u8..3)).prop_map(|(who, denom, amount, receiver, channel)| TOp::Spend { who, denom, amount, receiver, channel }),
+        4 => (who(), 0u8..5, amount(), 0u8..14, proptest::option::of(0u8..3)).prop_map(|(who, denom, amount, receiver, channel)| TOp::Spend { who, denom, amount, receiver, channel }),
         1 => (who(), 0u8..4).prop_map(|(who, trader)| TOp::SetTrader { who, trader }),
         1 => (who(), proptest::collection::vec(route(), 0..4)).prop_map(|(who, routes)| TOp::SetRoutes { who, routes }),
     ];
@@ -447,6 +447,18 @@ fn build_candidate(c: &Candidate, allowed: &[Vec<RouteHop>]) -> (Vec<RouteHop>, 
 }
 
 fn receiver_addr(k: u8) -> String {
+    match k % 14 {
+        8 => acct("osmo1x", "recv", 20),
+        9 => acct("celestia1valoper", "recv", 20),
+        10 => acct("osmo", "recv", 20).to_uppercase(),
+        11 => acct("celestia", "recv", 20).to_uppercase(),
+        12 => acct("osmo1celestia", "recv", 32),
+        13 => acct("celestia1", "recv", 20),
+        _ => receiver_addr_basic(k),
+    }
+}
+
+fn receiver_addr_basic(k: u8) -> String {
     match k % 8 {
         0 => acct("osmo", "recv", 20),
         1 => acct("celestia", "recv", 20),
